@@ -21,6 +21,8 @@ type Obligation struct {
 	Nontrivial bool   `json:"-"`
 }
 
+var verbose bool
+
 type RuleInfo struct {
 	ID    string `json:"id"`
 	Text  string `json:"text"`
@@ -224,6 +226,13 @@ func (c *Ctx) finish(meta propMeta, verifDir string, seed int, jsonOut bool, wri
 	}
 	for _, o := range viol {
 		fmt.Printf("  FAIL %s %s [%s] %s\n", o.Rule, o.Pos, o.Key, o.How)
+	}
+	if verbose {
+		for _, o := range c.Obs {
+			if o.OK {
+				fmt.Printf("  ok   %s %s [%s] %s\n", o.Rule, o.Pos, o.Key, o.How)
+			}
+		}
 	}
 
 	evDir := filepath.Join(verifDir, "evidence")
